@@ -17,6 +17,7 @@ package main
 import (
 	"fmt"
 	"io"
+	"sort"
 	"strings"
 
 	"github.com/openconfig/goyang/pkg/indent"
@@ -47,8 +48,16 @@ func doTypes(w io.Writer, entries []*yang.Entry) {
 		types.AddEntry(e)
 	}
 
+	// Print in a fixed order; map iteration order changes from run to run.
+	var lines []string
 	for t := range types {
-		printType(w, t, typesVerbose)
+		var b strings.Builder
+		printType(&b, t, typesVerbose)
+		lines = append(lines, b.String())
+	}
+	sort.Strings(lines)
+	for _, l := range lines {
+		io.WriteString(w, l)
 	}
 	if typesDebug {
 		for _, e := range entries {
@@ -129,7 +138,12 @@ func showall(w io.Writer, e *yang.Entry) {
 		fmt.Fprintf(w, "\n%s\n  ", e.Node.Statement().Location())
 		printType(w, e.Type.Root, false)
 	}
-	for _, d := range e.Dir {
-		showall(w, d)
+	var names []string
+	for k := range e.Dir {
+		names = append(names, k)
+	}
+	sort.Strings(names)
+	for _, k := range names {
+		showall(w, e.Dir[k])
 	}
 }
